@@ -36,6 +36,8 @@ SIG_WRAPPER = "paging.wrapper_page_size"
 SIG_SHADOW = "paging.max_results_shadows_page_size"
 SIG_LABEL = "paging.repeated_paging_field"
 SIG_MAPIMPORT = "paging.map_value_type_not_imported"
+SIG_ADS_MAPIMPORT = "paging.ads_map_value_type_not_imported"
+UUID4 = re.compile(r"^[0-9a-f]{8}-[0-9a-f]{4}-4[0-9a-f]{3}-[89ab][0-9a-f]{3}-[0-9a-f]{12}$")
 
 
 # ---------------------------------------------------------------------------------------------- shapes
@@ -415,7 +417,7 @@ def short_shape(shape):
 def report(ctx, pending):
     """Unknown-class violations first (main.py prints at most five replays), known candidate-defect classes last."""
     def emit(sig, what, c):
-        if str(c.get("kind", "")).startswith("drive"):
+        if str(c.get("kind", "")).startswith("drive") or str(c.get("kind", "")).startswith("witness"):
             ctx.violation(what, c, sig)
             return
         case = {"kind": "classify", "req": c["req"], "resp": c["resp"], "impl": c.get("impl")}
@@ -481,7 +483,8 @@ def library_api(r, transports):
     pkg, pypkg = r.choice(LIB_PACKAGES)
     d = "/".join(pkg.split("."))
     two_files = r.random() < 0.6
-    deps = list(apigen.STD_DEPS) + ["google/protobuf/wrappers.proto", "google/rpc/status.proto"]
+    from google.api import field_info_pb2
+    deps = list(apigen.STD_DEPS) + ["google/protobuf/wrappers.proto", "google/rpc/status.proto", "google/api/field_info.proto"]
     second = File(f"{d}/resources.proto", pkg, deps=list(apigen.STD_DEPS))
     main = File(f"{d}/service.proto", pkg, deps=deps + ([second.proto.name] if two_files else []))
     item_file = second if two_files else main
@@ -503,6 +506,7 @@ def library_api(r, transports):
         ("other-package-message", lambda: fld("statuses", "msg:.google.rpc.Status", True)),
         ("scalar-string", lambda: fld("names", "string", True)),
         ("scalar-int", lambda: fld("numbers", "int64", True)),
+        ("enum", lambda: fld("views", "enum:" + view, True)),
         ("map-string-string", lambda: fld("labels", "string", map_=("string", "string"))),
         # (a map whose value message lives in another file than the response is the known import defect: see witness_map_import)
         ("map-string-message", lambda: fld("by_name", "msg", map_=("string", "msg:" + shelf.fqn))),
@@ -547,6 +551,15 @@ def library_api(r, transports):
             if pres == "oneof":
                 req.append(fld("cursor", "string", presence="oneof:position"))
                 resp.append(fld("next_cursor", "string", presence="oneof:next"))
+        # some paged methods are named in publishing.method_settings with auto_populated_fields (AIP-4235): the request id is part
+        # of "all other request fields" and must be the same on every page of one listing
+        auto = []
+        if i == 0 or r.random() < 0.3:
+            req.append(fld("request_id", "string"))
+            auto = ["request_id"]
+            if r.random() < 0.5:
+                req.append(fld("opt_request_id", "string", presence="optional"))
+                auto.append("opt_request_id")
         if r.random() < 0.6:
             renumber(r, resp)
         if r.random() < 0.3:
@@ -554,14 +567,18 @@ def library_api(r, transports):
         rq, rs = main.message(name + "Request"), main.message(name + "Response")
         add_fields(rq, req, main)
         add_fields(rs, resp, main)
+        for fpb in rq.proto.field:
+            if fpb.name in auto:
+                fpb.options.Extensions[field_info_pb2.field_info].format = field_info_pb2.FieldInfo.UUID4
         coll = snake(w).replace("_", "")
         svc.rpc(name, rq.fqn, rs.fqn, http=("get", f"/v1/{{parent=projects/*}}/{coll}"))
         rpcs.append({"name": name, "snake": snake(name), "req": req, "resp": resp, "req_fqn": rq.fqn, "resp_fqn": rs.fqn,
-                     "path": f"/{pkg}.{svc_name}/{name}", "item_kind": ikind, "size": (sname, stype), "coll": coll, "presence": pres})
+                     "path": f"/{pkg}.{svc_name}/{name}", "item_kind": ikind, "size": (sname, stype), "coll": coll, "presence": pres, "auto": auto})
     files = ([second] if two_files else []) + [main]
     request = apigen.request(files, parameter="transport=" + transports)
     info = {"package": pkg, "pypkg": pypkg, "service": svc_name, "module": snake(svc_name), "rpcs": rpcs, "transports": transports,
-            "two_files": two_files, "api_version": api_version}
+            "two_files": two_files, "api_version": api_version,
+            "method_settings": [{"selector": f"{pkg}.{svc_name}.{m['name']}", "auto_populated_fields": m["auto"]} for m in rpcs if m["auto"]]}
     return request, info
 
 
@@ -701,6 +718,11 @@ TIMEOUTS = [20.0, 40.0, 80.0]
 DEFAULT_TIMEOUT = 60.0            # methodConfig default of every generated library (see retry_config)
 
 
+def service_yaml(info):
+    return {"type": "google.api.Service", "config_version": 3, "name": "library.example.com",
+            "publishing": {"method_settings": info.get("method_settings") or []}}
+
+
 def retry_config(info):
     """Service config given to the generator: every method of the service gets a default retry policy on UNAVAILABLE and a default
     timeout, so that DEFAULT and the caller's explicit retry=None / timeout=None are observably different."""
@@ -738,6 +760,8 @@ def fill_page(r, D, m, size, token, serial):
             seq.append(r.choice(["a", "", "x y", "it"]) + uid)
         elif item["type"] in INT_SCALARS:
             seq.append(r.choice([0, 1, -5, 2 ** 40]) + serial * 10 + k)
+        elif item["type"].startswith("enum:"):
+            seq.append(r.choice([0, 1, 2]))
         elif item["type"].endswith("google.rpc.Status"):
             e = seq.add()
             e.code, e.message = r.randint(0, 16), "m" + uid
@@ -898,6 +922,12 @@ def build_drive_calls(r, D, info, m, kinds):
                 setattr(rq, sf, r.randint(1, 50))
     if r.random() < 0.25:
         rq.page_token = r.choice(["start", "resume-7"])
+    id_mode = "none"
+    if m.get("auto"):
+        id_mode = r.choice(["left-to-client", "caller-supplied"])
+        if id_mode == "caller-supplied":
+            for n in m["auto"]:
+                setattr(rq, n, "caller-" + n + "-0451")
     pages, extra = gen_history(r)
     serials = list(range(1, len(pages) + len(extra) + 1))
     msgs = [fill_page(r, D, m, sz, tok, s) for (sz, tok), s in zip(pages + extra, serials)]
@@ -933,7 +963,7 @@ def build_drive_calls(r, D, info, m, kinds):
             else:
                 spec["grpc_script"] = {m["path"]: [{"messages": [dyn.Dyn.b64(x)]} for x in msgs]}
             out.append({"spec": spec, "hist": hist, "kind": kind, "mode": mode, "item": item, "attr_names": attr_names,
-                        "sent_token": rq.page_token, "sent_filter": rq.filter if "filter" in has else "", "md": md, "timeout": timeout, "timeout_mode": tmode, "m": m})
+                        "sent_token": rq.page_token, "sent_filter": rq.filter if "filter" in has else "", "md": md, "timeout": timeout, "timeout_mode": tmode, "m": m, "id_mode": id_mode})
     return out
 
 
@@ -941,8 +971,8 @@ def eval_drive(ctx, D, info, lib_i, req_b64, call, res, checks, pending):
     """Oracle + Coq terms for one driven call."""
     m, item, hist, kind, mode = call["m"], call["item"], call["hist"], call["kind"], call["mode"]
     names = call["attr_names"]
-    case = {"kind": "drive", "request_b64": req_b64, "info": {k: info.get(k) for k in ("package", "pypkg", "service", "module", "transports", "api_version")},
-            "rpc": m["name"], "call": {k: v for k, v in call.items() if k != "observed"}}
+    case = {"kind": "drive", "request_b64": req_b64, "info": {k: info.get(k) for k in ("package", "pypkg", "service", "module", "transports", "api_version", "method_settings")},
+            "rpc": m["name"], "call": {k: v for k, v in call.items() if k not in ("observed", "_generated_ids")}}
     brk = call["spec"].get("break_after")
     label = f"lib#{lib_i} {m['name']} {kind} {mode}{'' if brk is None else '@' + str(brk)} pages={[(len(p[0]), p[1]) for p in hist['pages']]} visited={hist['visited']}"
     full = hist["pages"][: hist["visited"]]
@@ -963,7 +993,7 @@ def eval_drive(ctx, D, info, lib_i, req_b64, call, res, checks, pending):
              feature=[f"drive-{kind}", f"mode-{mode}", f"pages={len(full)}", "service-with-api_version" if info.get("api_version") else "service-without-api_version", "break-holding-page>=2" if mode == "pages-break" and brk >= 1 else "no-late-break", f"item-{m['item_kind']}", f"size-{m['size'][0]}:{short(m['size'][1])}", f"paging-fields-{m.get('presence', 'plain')}",
                       "empty-intermediate-page" if any(not p[0] for p in visited[:-1]) else "no-empty-intermediate",
                       "unreachable-extra-pages" if len(hist["pages"]) > hist["visited"] else "no-extra-pages",
-                      "initial-token" if call["sent_token"] else "no-initial-token", f"timeout-{call.get('timeout_mode', 'value')}",
+                      "initial-token" if call["sent_token"] else "no-initial-token", f"timeout-{call.get('timeout_mode', 'value')}", f"request-id-{call.get('id_mode', 'none')}",
                       "retry-none" if call["spec"]["call_kwargs"].get("retry") == "none" else "retry-unset"])
     if not res.get("ok"):
         pending.append((None, f"{label}: iterating the pager raised {res.get('error')}", case))
@@ -984,6 +1014,17 @@ def eval_drive(ctx, D, info, lib_i, req_b64, call, res, checks, pending):
         calls = [observed_grpc_call(D, m, g) for g in res["grpc_calls"]]
         sent = D.parse(m["req_fqn"].lstrip("."), call["spec"]["request"]["b64"])
         sent.ClearField("page_token")
+        if m.get("auto") and res["grpc_calls"] and len(res["grpc_calls"][0]["requests"]) == 1:
+            # an id the caller left unset is populated by the client for the FIRST request: it must be a version-4 UUID, and is then
+            # one of the request's fields like any other (the same on every follow-up page)
+            first_msg = D.parse(m["req_fqn"].lstrip("."), res["grpc_calls"][0]["requests"][0])
+            for n in m["auto"]:
+                if not getattr(sent, n):
+                    v = getattr(first_msg, n)
+                    if not UUID4.match(v):
+                        pending.append((None, f"{label}: auto-populated field {n} left unset by the caller was sent as {v!r} on the first page, not a version-4 UUID", case))
+                    setattr(sent, n, v)
+                    call.setdefault("_generated_ids", []).append(v)
         first_expected = (call["sent_token"], canon_item(dyn.Dyn.canon(sent)), None)
         if calls:
             opts = json.loads(calls[0][2])
@@ -1003,7 +1044,8 @@ def eval_drive(ctx, D, info, lib_i, req_b64, call, res, checks, pending):
         if k == 0 and c[1] != first_expected[1]:
             problems.append("first call does not carry the caller's request fields")
         if k > 0 and (c[1] != calls[0][1]):
-            problems.append(f"call {k} changed other request fields: {c[1]} vs {calls[0][1]}")
+            idnote = " (a request id, whether populated by the client or supplied by the caller, belongs to the listing: it must not change between pages)" if m.get("auto") else ""
+            problems.append(f"call {k} changed other request fields{idnote}: {c[1]} vs {calls[0][1]}")
         if k > 0 and (c[2] != calls[0][2]):
             problems.append(f"call {k} changed call options: {c[2]} vs {calls[0][2]}")
     if info.get("api_version") and kind != "rest":
@@ -1049,7 +1091,12 @@ def eval_drive(ctx, D, info, lib_i, req_b64, call, res, checks, pending):
         problems.append(f"after {'leaving the loop early' if brk is not None else 'iteration'} the pager exposes {final_page}, the most recent page is {visited[-1]}")
     for p in problems[:3]:
         pending.append((None, f"{label}: {p}", case))
-    call["observed"] = {"calls": calls, "items": got if mode in ("items", "items-break") else None,
+    def anonymous(c):        # ids generated by the client differ between two runs: compare runs with the ids blanked
+        f = c[1]
+        for v in call.get("_generated_ids", []):
+            f = f.replace(v, "<generated-id>")
+        return (c[0], f, c[2])
+    call["observed"] = {"calls": [anonymous(c) for c in calls], "items": got if mode in ("items", "items-break") else None,
                         "pages_through_pager": obs_pages, "attributes_after": final_page}
     # ---- model = implementation, inside Coq ----
     is_async = coq.b(kind == "grpc_asyncio")
@@ -1105,7 +1152,7 @@ def retry_scenario(r, D, info, m, kinds):
 def eval_retry(ctx, D, info, i, b64, c, res, pending):
     m, item, variant, kind = c["m"], c["item"], c["retry"], c["kind"]
     case = {"kind": "drive-retry", "request_b64": b64, "rpc": m["name"], "pypkg": info["pypkg"], "spec": c["spec"], "variant": variant,
-            "info": {k: info.get(k) for k in ("package", "pypkg", "service", "module", "transports", "api_version")}}
+            "info": {k: info.get(k) for k in ("package", "pypkg", "service", "module", "transports", "api_version", "method_settings")}}
     ctx.case({"lib": i, "rpc": m["name"], "kind": kind, "retry": variant}, feature=[f"retry-{variant}-on-follow-up-{kind}"])
     ncalls = len(res["http_calls"] if kind == "rest" else res["grpc_calls"])
     label = f"lib#{i} {m['name']} {kind} retry={variant} (2 pages, page 2 fails once with {'ABORTED/409' if variant == 'explicit' else 'UNAVAILABLE'})"
@@ -1143,6 +1190,8 @@ def sequence_scenarios(r, D, info, m, kinds):
         rq.order = 3
     if r.random() < 0.3:
         rq.page_token = "start"
+    for n in m.get("auto") or []:
+        setattr(rq, n, "caller-" + n + "-7")
     out = []
     for seq in ("mutate", "again", "again-fresh"):
         n1 = r.randint(2, 4)
@@ -1179,7 +1228,7 @@ def sequence_scenarios(r, D, info, m, kinds):
 def eval_sequence(ctx, D, info, lib_i, req_b64, call, res, checks, pending):
     m, item, kind, seq = call["m"], call["item"], call["kind"], call["sequence"]
     h1, h2 = call["hist1"], call["hist2"]
-    case = {"kind": "drive-sequence", "request_b64": req_b64, "info": {k: info.get(k) for k in ("package", "pypkg", "service", "module", "transports", "api_version")},
+    case = {"kind": "drive-sequence", "request_b64": req_b64, "info": {k: info.get(k) for k in ("package", "pypkg", "service", "module", "transports", "api_version", "method_settings")},
             "rpc": m["name"], "call": call}
     label = f"lib#{lib_i} {m['name']} {kind} sequence={seq} pages={[(len(p[0]), p[1]) for p in h1]}" + (f" then again {[(len(p[0]), p[1]) for p in h2]}" if h2 else "")
     ctx.case({"lib": lib_i, "rpc": m["name"], "kind": kind, "sequence": seq, "hist1": h1, "hist2": h2, "sent_token": call["sent_token"]},
@@ -1270,7 +1319,8 @@ def run_libraries(ctx, n, seed_tag="C07-lib", histories=2):
             ctx.features["lib-invalid-candidate"] += 1
             ctx.notes["lib_invalid"] = str(e)[:300]
             continue
-        req = gen.with_params(req, [req.parameter], gen.case_dir(f"c07cfg{re.sub(chr(87), '', seed_tag)}{i}"), retry=retry_config(info))
+        req = gen.with_params(req, [req.parameter], gen.case_dir(f"c07cfg{re.sub(chr(87), '', seed_tag)}{i}"), retry=retry_config(info),
+                              service_yaml=service_yaml(info))
         jobs.append((i, req, info))
     results = gen.pmap(lambda j: gen.run_generator(j[1]), jobs)
     cls = gen.pmap(lambda j: gen.impl("paging", [{"request_b64": apigen.req_b64(j[1])}])[0], jobs)
@@ -1317,7 +1367,7 @@ def run_libraries(ctx, n, seed_tag="C07-lib", histories=2):
             if len(obs) == 2 and obs["grpc"] != obs["grpc_asyncio"]:
                 c = group[0]
                 pending.append((None, f"lib#{i} {key[0]}: sync and asyncio pagers disagree on the same history: {obs}",
-                                {"kind": "drive", "request_b64": b64, "rpc": key[0], "info": {k: info.get(k) for k in ("package", "pypkg", "service", "module", "transports", "api_version")},
+                                {"kind": "drive", "request_b64": b64, "rpc": key[0], "info": {k: info.get(k) for k in ("package", "pypkg", "service", "module", "transports", "api_version", "method_settings")},
                                  "call": {k: v for k, v in c.items() if k != "observed"}}))
         gen.rm(root)
     failing, errors, nfiles = coq.eval_checks("c07lib" + re.sub(r"\W", "", seed_tag), IMPORTS, "", checks)
@@ -1358,7 +1408,7 @@ def witness_map_import(ctx):
     gen.rm(root)
     ctx.case({"witness": "map-import"}, feature=["witness-map-value-other-file"])
     c, o = calls[0], out[0]
-    case = {"kind": "drive", "request_b64": apigen.req_b64(req), "info": {k: info.get(k) for k in ("package", "pypkg", "service", "module", "transports", "api_version")},
+    case = {"kind": "drive", "request_b64": apigen.req_b64(req), "info": {k: info.get(k) for k in ("package", "pypkg", "service", "module", "transports", "api_version", "method_settings")},
             "rpc": "ListBooks", "call": c}
     if not o.get("ok"):
         err = o.get("error", {})
@@ -1369,9 +1419,49 @@ def witness_map_import(ctx):
     return pending
 
 
+def witness_ads_map_import(ctx):
+    """The ads copy of pagers.py.j2 lacks the value-type import of the default template (candidate finding C07-ads-map-value-import):
+    a paged item field map<string, Book> with Book declared in another file -> NameError when the emitted pagers module is imported.
+    Runs only once that id is listed in findings/known_findings.json (known: reported as KNOWN-FINDING; fixed: regression witness)."""
+    import subprocess
+    try:
+        listed = any(f.get("id") == "C07-ads-map-value-import" for f in json.load(open(os.path.join(env.VERIF, "findings", "known_findings.json"))))
+    except Exception:  # noqa
+        listed = False
+    if not listed:
+        ctx.notes["ads_map_import_witness"] = "not run: C07-ads-map-value-import is not listed in findings/known_findings.json yet"
+        return []
+    pkg = "google.example.library.v1"
+    second = File("google/example/library/v1/resources.proto", pkg, deps=list(apigen.STD_DEPS))
+    book = second.message("Book").field("name", 1, "string")
+    main = File("google/example/library/v1/service.proto", pkg, deps=list(apigen.STD_DEPS) + [second.proto.name])
+    rq, rs = main.message("ListBooksRequest"), main.message("ListBooksResponse")
+    add_fields(rq, [fld("parent", "string"), fld("page_size", "int32"), fld("page_token", "string")], main)
+    add_fields(rs, [fld("by_name", "msg", map_=("string", "msg:" + book.fqn)), fld("next_page_token", "string")], main)
+    main.service("Library", host="library.example.com").rpc("ListBooks", rq.fqn, rs.fqn, http=("get", "/v1/{parent=projects/*}/books"))
+    req = apigen.request([second, main], parameter="transport=grpc,python-gapic-templates=ads-templates,old-naming")
+    res, err = gen.run_generator(req)
+    ctx.case({"witness": "ads-map-import"}, feature=["witness-ads-map-value-other-file"])
+    if res is None:
+        ctx.oblige("witness ads map-import: generation succeeds", False, err[-400:], "T1")
+        return []
+    root = gen.materialize(res, gen.case_dir("c07adsmapimport"))
+    pg = next(f.name for f in res.file if f.name.endswith("/services/library/pagers.py"))
+    mod = pg[:-3].replace("/", ".")
+    p = subprocess.run([env.PY, "-c", f"import {mod}"], env={**env.child_env(), "PYTHONPATH": root + ":" + env.REPO}, capture_output=True, text=True)
+    gen.rm(root)
+    if p.returncode == 0:
+        return []
+    last = p.stderr.strip().split("\n")[-1]
+    sig = SIG_ADS_MAPIMPORT if last.startswith("NameError") and "is not defined" in last else None
+    return [(sig, f"ads templates, paged method with item field map<string, Book> (Book declared in another file): the emitted pagers module cannot be imported: {last}",
+             {"kind": "witness-ads-map-import", "request_b64": apigen.req_b64(req)})]
+
+
 def run(ctx):
     pending = []
     pending += witness_map_import(ctx)
+    pending += witness_ads_map_import(ctx)
     cases = load_corpus() + [dict(w) for w in WITNESSES] + classification_cases(env.rng("C07-shapes", 0), ctx.n(120, 5000))
     pending += run_libraries(ctx, ctx.n(6, 120), histories=ctx.n(2, 4))
     pending += run_classification(ctx, cases)
@@ -1405,8 +1495,8 @@ def replay(ctx, rep):
     elif c.get("kind") in ("drive", "drive-retry", "drive-sequence"):
         req = apigen.req_from_b64(c["request_b64"])
         if c.get("info"):        # the option file named in the recorded parameter is gone: write the service config again
-            keep = [x for x in req.parameter.split(",") if x and not x.startswith("retry-config=")]
-            req = gen.with_params(req, keep, gen.case_dir("c07replaycfg"), retry=retry_config(c["info"]))
+            keep = [x for x in req.parameter.split(",") if x and not x.startswith("retry-config=") and not x.startswith("service-yaml=")]
+            req = gen.with_params(req, keep, gen.case_dir("c07replaycfg"), retry=retry_config(c["info"]), service_yaml=service_yaml(c["info"]))
         res, err = gen.run_generator(req)
         if res is None:
             ctx.oblige("replay: generation succeeds", False, err[-600:])
